@@ -5,6 +5,7 @@ Stated against the escape table regenerated from /repo (`Gen.shellEscapes`).
 -/
 import Martian.ShellQuote
 import Proofs.ShellQuote
+import Proofs.ShellWords
 import Gen.Facts
 
 namespace Props.C18
@@ -33,5 +34,39 @@ UTF-8 byte is written as a backslash-octal escape, which `sh` does not
 interpret inside double quotes, so the byte is *not* reproduced. -/
 theorem invalid_byte_not_reproduced :
     dqEval (quote Gen.shellEscapes [0xBF]) ≠ some [0xBF] := by decide
+
+/-- `formatArgs` (environment assignments in the order given, command, arguments,
+joined by ` \⏎  `): a POSIX shell splits the text into exactly the words
+`KEY=value`…, `cmd`, `arg`… — every value is reproduced byte for byte and the
+number of words does not depend on the values (no injection). Keys are
+names (`A-Za-z0-9_`, as environment variable names are); values, command and
+arguments are arbitrary NUL-free valid UTF-8. -/
+theorem formatArgs_words (envs : List (Bytes × Bytes)) (cmd : Bytes) (argv : List Bytes)
+    (hk : ∀ kv ∈ envs, (∀ b ∈ kv.1, isPlain b = true) ∧ validUtf8 kv.2 = true ∧ (0 : UInt8) ∉ kv.2)
+    (hc : validUtf8 cmd = true ∧ (0 : UInt8) ∉ cmd)
+    (ha : ∀ a ∈ argv, validUtf8 a = true ∧ (0 : UInt8) ∉ a) :
+    shWords (formatArgsOrdered Gen.shellEscapes envs cmd argv)
+      = some (envs.map assignWord ++ cmd :: argv) := by
+  unfold shWords formatArgsOrdered
+  rw [List.append_assoc, sw_envs table_ok envs _ [] hk,
+    sw_quote table_ok cmd _ [] false _ hc.1 hc.2,
+    sw_args table_ok argv _ _ ha]
+  simp
+
+/-- `formatArgs` sorts the rendered assignments; sorting only permutes them, so
+the multiset of words is independent of the (unordered) Go map's iteration. -/
+theorem formatArgs_sorted_words (envs : List (Bytes × Bytes)) (cmd : Bytes) (argv : List Bytes)
+    (hk : ∀ kv ∈ sortEnvs Gen.shellEscapes envs,
+      (∀ b ∈ kv.1, isPlain b = true) ∧ validUtf8 kv.2 = true ∧ (0 : UInt8) ∉ kv.2)
+    (hc : validUtf8 cmd = true ∧ (0 : UInt8) ∉ cmd)
+    (ha : ∀ a ∈ argv, validUtf8 a = true ∧ (0 : UInt8) ∉ a) :
+    shWords (formatArgs Gen.shellEscapes envs cmd argv)
+      = some ((sortEnvs Gen.shellEscapes envs).map assignWord ++ cmd :: argv) :=
+  formatArgs_words (sortEnvs Gen.shellEscapes envs) cmd argv hk hc ha
+
+/-- Non-vacuity: hypotheses are met by a concrete command line with metacharacters. -/
+example : (∀ kv ∈ [([0x41, 0x5F, 0x31], [0x24, 0x28, 0x69, 0x64, 0x29])],
+      (∀ b ∈ (kv : Bytes × Bytes).1, isPlain b = true) ∧ validUtf8 kv.2 = true ∧ (0 : UInt8) ∉ kv.2)
+    ∧ (validUtf8 [0x60, 0x22] = true ∧ (0 : UInt8) ∉ [0x60, 0x22]) := by decide
 
 end Props.C18
